@@ -385,6 +385,12 @@ def r6_outlives_the_thread(ctx, facts, cfg):
     ctx.ob("C20.R6a", "BacktraceStorage::StoredTransitEvent:owns-thread-identity", not nonown and len(crec["fields"]) >= 3,
            "every member of a stored backtrace record owns its data (members %s; non-owning: %s): the record outlives the thread context "
            "the thread id and name were read from" % ([x["name"] for x in crec["fields"]], nonown), loc=crec.get("loc", ""))
+    mapping_agreement(ctx, facts, cfg, "C20.R6b")
+
+
+def mapping_agreement(ctx, facts, cfg, rule):
+    """the block a queue is given is mapped whole and returned whole (shared with C01: the 2 x capacity storage lies inside the mapping
+    only if every mmap call — the huge-page attempt and its fallback — asks for the full length)"""
     al = facts.need("quill::detail::BoundedSPSCQueueImpl::_alloc_aligned", cfg)
     fr = facts.need("quill::detail::BoundedSPSCQueueImpl::_free_aligned", cfg)
 
@@ -438,7 +444,25 @@ def r6_outlives_the_thread(ctx, facts, cfg):
         wo = [(k, v) for k, v in wr.items() if k in ro_slot]
         ok_off = bool(ro_slot) and len(wo) == 1 and wo[0][1] in inits and isnode(inits[wo[0][1]]) and \
             any(isnode(y) and y["k"] == "BinaryOperator" and y["op"] == "-" for y in walk(inits[wo[0][1]])) and ro_slot != r_slot
-        ctx.ob("C20.R6b", "%s:mapping-length-recorded" % a.name.replace("quill::detail::", ""), ok_len and ok_off,
-               "the length handed to mmap is the variable stored in the header slot (%s bytes before the block) that _free_aligned reads "
+        # the length covers the request, the header and the worst-case alignment slack
+        li = inits.get(len_var) if len_var is not None else None
+        psz, pal = a.rec["params"][0]["did"], a.rec["params"][1]["did"]
+
+        def terms(e):
+            e = strip(e, casts=True)
+            while isnode(e) and e["k"] in ("InitListExpr", "ParenExpr") and len(e.get("c") or []) == 1:
+                e = strip(e["c"][0], casts=True)
+            if isnode(e) and e["k"] == "BinaryOperator" and e["op"] == "+":
+                return terms(e["lhs"]) + terms(e["rhs"])
+            return [e]
+        ts = terms(li) if isnode(li) else []
+        hdr = [const_val(t) if const_val(t) is not None else const_val((a.var_decls().get(var_ref(t)) or {}).get("init")) for t in ts if var_ref(t) not in (psz, pal)]
+        covers = len(ts) == 3 and sum(1 for t in ts if var_ref(t) == psz) == 1 and sum(1 for t in ts if var_ref(t) == pal) == 1 and \
+            len(hdr) == 1 and hdr[0] is not None and hdr[0] >= max(list(wr.keys()) or [0])
+        ctx.ob(rule, "%s:mapping-covers-request" % a.name.replace("quill::detail::", ""), covers,
+               "the mapped length is size + header + alignment: the header constant (%s) reaches the farthest header slot written (%s bytes "
+               "before the block) and a full alignment of slack is included" % (hdr, max(list(wr.keys()) or [0])), fn=a)
+        ctx.ob(rule, "%s:mapping-length-recorded" % a.name.replace("quill::detail::", ""), ok_len and ok_off,
+               "every mmap call asks for the same length, the one variable stored in the header slot (%s bytes before the block) that _free_aligned reads "
                "its munmap length from (%s); the offset to the mapping's start is stored and read back at its own slot (%s / %s)"
                % (w_slot, r_slot, [k for k, v in wo], ro_slot), fn=a)
